@@ -1,6 +1,7 @@
 SPECIFICATION SSpec
 CONSTANTS
   Pairs = FALSE
+  SampleOneIn = 1
   Wide = FALSE
 INVARIANTS Emit
 CHECK_DEADLOCK FALSE
